@@ -335,6 +335,53 @@ def _program_body(E, w, prog):
     same_array(E, catalog.computed(E, w, m), prog.ref, label="computed-values", skolem="pc")
 
 
+def inst_dask_int_index_then(kind):
+    """x[i] with an integer dask array i, combined with another basic index (x[i, 1], x[1, i]) or followed by one
+    (x[i][:, a:b], x[i][::2]): supported index forms -- the optimizer has to get through them (the slice meets the Blockwise
+    that carries the per-block offsets) and the result keeps the advertised shape.  Values are not decided here (the take
+    kernel works on NumPy integer arrays)."""
+    def body(E):
+        import dask_array.io._from_array as FAm
+        from symx.sarr import leaf
+
+        from . import catalog
+
+        w = catalog.W(E)
+        x = catalog.source(w, E, "x", (2, 2))
+        coll = w.fn(catalog.NC, "new_collection")(x.node)
+        n = E.int("m", 1)
+        meta = np.empty((0,), dtype="i8")
+        node = w.space.make(FAm.FromArray, leaf("ix", (n,), dtype="i8"), ((n,),), _symx_attrs=dict(_meta=meta, chunks=((n,),), _name="ix"))
+        ix = w.fn(catalog.NC, "new_collection")(node)
+        if kind == "x[i,1]":
+            out, shape = coll[ix, 1], (n,)
+        elif kind == "x[1,i]":
+            out, shape = coll[1, ix], (n,)
+        elif kind == "x[i][:,a:]":
+            a = E.int("a", 0)
+            E.assume(a <= x.node.shape[1])
+            out, shape = coll[ix][:, E.slice(a, None, None)], (n, x.node.shape[1] - a)
+        else:
+            out, shape = coll[ix][::2], ((n + 1) // 2, x.node.shape[1])
+        E.ensure("advertised-shape", EQ(tuple(out.shape), tuple(shape)))
+        for stage in ("simplified", "lowered"):
+            st = catalog.stages(E, w, out.expr, {stage})[stage]
+            E.ensure(f"{stage}-keeps-the-shape", EQ(tuple(st.shape), tuple(shape)))
+
+    def api(values):
+        import dask_array as da
+
+        X = np.arange(20).reshape(4, 5)
+        x = da.from_array(X, chunks=(2, 3))
+        i = np.array([3, 0, 2])
+        di = da.from_array(i, chunks=3)
+        got, want = {"x[i,1]": lambda: (x[di, 1], X[i, 1]), "x[1,i]": lambda: (x[1, di], X[1, i]),
+                     "x[i][:,a:]": lambda: (x[di][:, 1:], X[i][:, 1:]), "x[i][::2]": lambda: (x[di][::2], X[i][::2])}[kind]()
+        return dict(ok=bool(np.array_equal(got.compute(scheduler="sync"), want)), detail=f"{kind} on a (4, 5) array chunked (2, 3)")
+
+    return Instance(f"dask_int_index[{kind}]", body, dict(kind=kind), unit="slice_with_int_dask_array + Blockwise._accept_slice", api_replay=api)
+
+
 def inst_refusal(kind):
     """index forms the implementation does not support must raise, not return data: an integer dask array next to a list /
     NumPy array index on another axis, or two list indices (x's chunk sizes symbolic)"""
@@ -425,6 +472,8 @@ def instances(tier):
     out.extend(_program_instances(tier))
     for kind in ("dask-int+list", "dask-int+ndarray", "list+list"):
         out.append(inst_refusal(kind))
+    for kind in ("x[i,1]", "x[1,i]", "x[i][:,a:]", "x[i][::2]"):
+        out.append(inst_dask_int_index_then(kind))
     out.append(inst_vindex_bounds(1, 1))
     out.append(inst_vindex_bounds(2, 1))
     out.append(inst_vindex_bounds(2, 2))
